@@ -6,6 +6,7 @@ cd "$(dirname "$0")/.."
 python3 tools/translate/run_all.py
 python3 tools/gen_driver.py
 cd lean
-lake build 2>&1 | grep -v '^✔\|^⚠' | tail -40
+lake build > .lake/setup_lake.log 2>&1 || { grep -v '^✔\|^⚠' .lake/setup_lake.log | tail -60; echo 'setup FAILED: lake build'; exit 1; }
+grep -v '^✔\|^⚠' .lake/setup_lake.log | tail -5
 test -x .lake/build/bin/driver
 echo "setup ok"
